@@ -65,6 +65,6 @@ def queries(tier):
     return out
 
 MANIFEST = {
-    "text": "Hostile-peer steps decided on the real code with the wire bytes symbolic: SP handshake accepted iff well-formed else exactly that connection dropped; any length prefix vs any RECVMAXSZ refused before allocation; malformed/over-TTL/short protocol headers (REQ/REP/SURVEY/RESPOND/PAIR1/XREP/XRESPOND) never delivered, freed once, sender disconnected or dropped as specified, header capacity never exceeded; the accept loop survives every accept result.",
-    "note": "Re-uses the C01/C04/C07/C08/C13 harnesses restricted to their hostile-input queries plus the listener accept kernel; udp and long sessions outside.",
+    "text": "Hostile-peer steps decided on the real code with the wire bytes symbolic: SP handshake accepted iff well-formed else exactly that connection dropped; any length prefix vs any RECVMAXSZ refused before allocation; malformed/over-TTL/short protocol headers (REQ/REP/SURVEY/RESPOND/PAIR1/XREP/XRESPOND/XREQ/XSURVEY) never delivered, freed once, sender disconnected or dropped as specified, header capacity never exceeded; websocket frame headers (masking, length forms, opcodes, per-frame and whole-message size limits with fragments already queued); one arbitrary UDP datagram through the real udp_rx_cb (delivered iff version, source and length field are consistent with what arrived and the negotiated maximum; lying length -> DISC and only that pipe dropped; receive always re-posted); the accept loop survives every accept result.",
+    "note": "Re-uses the C01/C04/C07/C08/C13/C16 harnesses restricted to their hostile-input queries plus the listener accept and udp receive kernels; udp connection handshake/timers and long hostile sessions outside.",
 }
